@@ -326,6 +326,28 @@ def _judge_msg(rec, opts):
 
 _MOPTS: dict = {}
 
+
+def _judge_src(rec, opts):
+    """Enumerated source text (MC_Strings): whatever parses renders alike through both interfaces."""
+    from liquid2 import DictLoader, Environment
+    from liquid2.exceptions import LiquidError
+    from .c12 import RT_DATA
+    env = _MOPTS.get("_env")
+    if env is None:
+        env = _MOPTS["_env"] = Environment(loader=DictLoader({}))
+    try:
+        t = env.from_string(rec["src"])
+    except LiquidError:
+        return []
+    except Exception:  # noqa: BLE001
+        return []           # C02's business
+    s = outcome_of(lambda: t.render(**copy.deepcopy(RT_DATA)))
+    a = outcome_of(lambda: drive(lambda: t.render_async(**{k: wrap_async(v) for k, v in copy.deepcopy(RT_DATA).items()})))
+    if s != a:
+        kind = "output" if (s["ok"] and a["ok"]) else "outcome"
+        return [(f"sync-async-differ:{kind}:source:{rec['focus']}", {"src": rec["src"], "sync": s, "async": a})]
+    return []
+
 HOSTILE = "<b>Fish & 'Chips'</b>"
 
 
@@ -385,6 +407,19 @@ def check(tier: str) -> int:
                 continue
             chk.tlc(r, f"message templates sync vs async ({variant})")
             gen.replay_file(chk, r.workdir / "out.ndjson", "harness.c03", "_judge_msg")
+        finally:
+            r.cleanup()
+    # enumerated source text: expression symbols inside wrappers, markup symbols bare
+    from . import tracecheck as tc
+    from .c12 import RT_WRAPPERS
+    plans2 = [(f"as-{w}", "expr-rt", 4 if tier == "thorough" else 3, pre, post) for w, pre, post in RT_WRAPPERS] + \
+             [("as-markup", "markup-small", 5 if tier == "thorough" else 4, "", "")]
+    for focus, alpha, n, pre, post in plans2:
+        r = tc.enumerate_sources(chk, focus, alpha, n, pre, post)
+        if r is None:
+            continue
+        try:
+            gen.replay_file(chk, r.workdir / "out.ndjson", "harness.c03", "_judge_src")
         finally:
             r.cleanup()
     depth = 3 if tier == "thorough" else 2
